@@ -1,5 +1,5 @@
 """Rational "division by zero panics" (C04) and the by-reference forwardings of the rational arithmetic arms
-(units ratio_zero_panic, ratio_zero_panic_ref, ratio_ops_ref).  Only units that fully verify are listed.
+(units ratio_zero_panic, ratio_zero_panic_ref, ratio_ops_ref, ratio_rem_ref, ratio_int_ops_ref).  Only units that fully verify are listed.
 
 ratio_zero_panic      must_panic variants (rule D4: requires <zero divisor>, ensures false) of EVERY dividing arm of
                       rational/src/div.rs for the by-value forwarding: `/` (impl_div_with_rbig, impl_div_with_relaxed,
@@ -12,6 +12,11 @@ ratio_zero_panic_ref  the same must_panic contracts for the three by-reference f
 ratio_ops_ref         the value-level contracts of unit ratio_ops (`+ - * /`, RBig and Relaxed: exact value, positive
                       denominator, RBig canonical) for the three by-reference forwardings: same annotated arm text, same
                       postcondition as the by-value form, so all four call forms agree (C15 style).
+ratio_rem_ref         likewise the value-level contracts of unit ratio_rem (`%`, div_euclid, rem_euclid, div_rem_euclid; 7 arms)
+                      for the three by-reference forwardings.
+ratio_int_ops_ref     likewise the 24 instances of unit ratio_int_ops (mixed `+ - * /` with UBig / IBig on either side) for the
+                      borrowed-integer forwardings of impl_binop_with_int! (rhs: &UBig / &IBig; the macro clones a, b of a
+                      borrowed T, so a, b are owned in every form).
 
 Trusted base added (on top of contracts/lib/bigstub.rs + ratio_types.rs, see ratio_sign.py):
   annot/rational/panic/panic_divide_by_0.rs (SIG)  rational/src/error.rs panic_divide_by_0() -> ! never returns (`ensures false`
@@ -36,10 +41,12 @@ VERUS = {
     'ratio_zero_panic': {'file': 'ratio_zero_panic.rs', 'w32': False},
     'ratio_zero_panic_ref': {'file': 'ratio_zero_panic_ref.rs', 'w32': False},
     'ratio_ops_ref': {'file': 'ratio_ops_ref.rs', 'w32': False},
+    'ratio_rem_ref': {'file': 'ratio_rem_ref.rs', 'w32': False},
+    'ratio_int_ops_ref': {'file': 'ratio_int_ops_ref.rs', 'w32': False},
 }
 
 PROP_UNITS = {
-    'C04': {'verus': ['ratio_zero_panic', 'ratio_zero_panic_ref', 'ratio_ops_ref'],
+    'C04': {'verus': ['ratio_zero_panic', 'ratio_zero_panic_ref', 'ratio_ops_ref', 'ratio_rem_ref', 'ratio_int_ops_ref'],
             'undecided': ['"division by zero panics": proved (must_panic variants: zero divisor ==> no normal return) for every '
                           '`/` arm incl. the mixed integer arms on either side, div_euclid, Repr::inv and the four inv '
                           'forwardings at their explicit guard, over `panic_divide_by_0() -> !` never returning; for `%`, '
@@ -47,13 +54,12 @@ PROP_UNITS = {
                           'reaches IBig::rem / rem_euclid / div_rem_euclid unchanged and nothing returns before, over the '
                           'TRUSTED must_panic contracts of these integer operations (lib/rp_stubs.rs; integer level: unit '
                           'int_div_ops_zero); all four owned/borrowed call forms are instantiated',
-                          'RBig/Relaxed `+ - * /` by-reference forwardings: the arm text is proved against the by-value '
-                          'postcondition for `T op &T`, `&T op T`, `&T op &T` (unit ratio_ops_ref) over by-reference operator '
-                          'stubs (lib/rp_refops.rs); the forwarding fns of helper_macros.rs themselves (into_parts / '
+                          'RBig/Relaxed `+ - * / %`, Euclidean forms and mixed integer arms, by-reference forwardings: the arm '
+                          'text is proved against the by-value postcondition for `T op &T`, `&T op T`, `&T op &T` (units '
+                          'ratio_ops_ref, ratio_rem_ref) and for a borrowed integer operand (unit ratio_int_ops_ref) over '
+                          'by-reference operator stubs (lib/rp_refops.rs); the forwarding fns of helper_macros.rs themselves (into_parts / '
                           'numerator() / denominator() and the order in which they hand a, b, c, d to the arm) are not under '
                           'contract: a macro-generated fn whose name and inner macro are metavariables is out of reach of '
-                          'rules E3/E3b/E3d; the *Assign forms (impl_binop_assign_by_taking) likewise',
-                          'by-reference forms of the VALUE contracts of `%`, the Euclidean forms and the mixed integer arms: '
-                          'not instantiated (only their must_panic variants are)']},
-    'C16': {'verus': ['ratio_zero_panic', 'ratio_zero_panic_ref', 'ratio_ops_ref'], 'undecided': []},
+                          'rules E3/E3b/E3d; the *Assign forms (impl_binop_assign_by_taking) likewise']},
+    'C16': {'verus': ['ratio_zero_panic', 'ratio_zero_panic_ref', 'ratio_ops_ref', 'ratio_rem_ref', 'ratio_int_ops_ref'], 'undecided': []},
 }
